@@ -56,10 +56,12 @@ def store_stages(tier, comps, trace_comps, mc_inv, mc_props, refute, only_devs, 
         st.append(GEN("Gen_Store", core, "store", replay_args=["--components", comps], label="Gen_Store/core",
                       only_devs=only_devs, min_cases=20000))
     st += [
+        # the merge universe and the random sessions contain Parent(): its RESULT depends on the recorded
+        # parent link, so all layers of the open ctx finding are needed there whatever the components are
         GEN("Gen_Store", mrg, "store", replay_args=["--components", comps], label="Gen_Store/merge",
-            only_devs=only_devs, min_cases=3000),
+            only_devs=None, min_cases=3000),
         TRACE("Trace_Store", "store", consts=dict(MaxNodes=1000, MaxArr=1000, Components="<-" + trace_comps),
-              drive_args=["--components", comps, "--steps", "25"], n=120 if q else 1500, only_devs=only_devs,
+              drive_args=["--components", comps, "--steps", "25"], n=120 if q else 1500, only_devs=None,
               label="Trace_Store/sessions"),
     ]
     return st
